@@ -279,7 +279,7 @@ Item(f, j) == CASE f = 1 -> Item1(j) [] f = 2 -> Item2(j) [] f = 3 -> Item3(j) [
 \* which items a mode looks at: C01/C04 everything (C04: transactions and inputs/outputs only);
 \* C03: transactions, every Stride-th item (each expands into one line per field); C02: a sample of bases
 IsTxFamily(f) == f >= 5
-Stride == CASE Mode = "C03" -> (IF Thorough THEN 3 ELSE 12) [] Mode = "C02" -> (IF Thorough THEN 5 ELSE 20) [] OTHER -> 1
+Stride == CASE Mode = "C03" -> (IF Thorough THEN 3 ELSE 12) [] Mode = "C02" -> (IF Thorough THEN 9 ELSE 20) [] OTHER -> 1
 Wanted(f, j) ==
     CASE Mode = "C01" -> TRUE
       [] Mode = "C04" -> IsTxFamily(f)
